@@ -196,3 +196,51 @@ Proof.
     rewrite Z.div_small in Hbit by lia. cbn in Hbit. lia. }
   split; [lia|]. apply Z.log2_unique; [lia|]. change (Z.succ h) with (h + 1). lia.
 Qed.
+
+(* ------------------------------------------------------------------ the (i+1) & !i trick *)
+Lemma land_2 a b x y :
+  Z.land (2 * a + Z.b2z x) (2 * b + Z.b2z y) = 2 * Z.land a b + Z.b2z (x && y).
+Proof.
+  apply Z.bits_inj'. intros n Hn. rewrite Z.land_spec.
+  destruct (Z.eq_dec n 0) as [->|Hne].
+  - rewrite !Z.testbit_0_r. reflexivity.
+  - replace n with (Z.succ (n - 1)) by lia. rewrite !Z.testbit_succ_r by lia. rewrite Z.land_spec. reflexivity.
+Qed.
+
+Lemma land_compl (m : nat) : forall c d, 0 <= c -> 0 <= d -> c + d = 2 ^ Z.of_nat m - 1 -> Z.land c d = 0.
+Proof.
+  induction m as [|m IH]; intros c d Hc Hd E.
+  - change (2 ^ Z.of_nat 0) with 1 in E. assert (c = 0) by lia. assert (d = 0) by lia. subst. reflexivity.
+  - rewrite Nat2Z.inj_succ, <- Z.add_1_r, pow2_succ in E by lia.
+    rewrite (Z.div2_odd c), (Z.div2_odd d). rewrite land_2.
+    pose proof (Z.div2_odd c) as Ec. pose proof (Z.div2_odd d) as Ed.
+    assert (0 <= Z.div2 c) by (apply Z.div2_nonneg; lia).
+    assert (0 <= Z.div2 d) by (apply Z.div2_nonneg; lia).
+    destruct (Z.odd c), (Z.odd d); cbn [Z.b2z andb] in *.
+    + lia.
+    + rewrite IH by lia. reflexivity.
+    + rewrite IH by lia. reflexivity.
+    + lia.
+Qed.
+
+Lemma land_mul_pow2 a b t : 0 <= t -> Z.land (a * 2 ^ t) (b * 2 ^ t) = Z.land a b * 2 ^ t.
+Proof. intros. rewrite <- !Z.shiftl_mul_pow2 by lia. rewrite Z.shiftl_land. reflexivity. Qed.
+
+(* i ends in exactly t ones (then a zero): i = c * 2^(t+1) + 2^t - 1 *)
+Lemma land_succ_not (w t : nat) c i : (t < w)%nat -> 0 <= c -> i = c * 2 ^ (Z.of_nat t + 1) + 2 ^ Z.of_nat t - 1 ->
+  i + 1 < 2 ^ Z.of_nat w -> Z.land (i + 1) (2 ^ Z.of_nat w - 1 - i) = 2 ^ Z.of_nat t.
+Proof.
+  intros Htw Hc Ei Hi.
+  pose proof (pow2_pos (Z.of_nat t) ltac:(lia)) as Hp.
+  rewrite pow2_succ in Ei by lia.
+  assert (Ew : 2 ^ Z.of_nat w = 2 ^ Z.of_nat (w - S t) * 2 * 2 ^ Z.of_nat t).
+  { rewrite <- Z.mul_assoc, <- pow2_succ, <- Z.pow_add_r by lia. f_equal. lia. }
+  pose proof (pow2_pos (Z.of_nat (w - S t)) ltac:(lia)) as Hq.
+  set (d := 2 ^ Z.of_nat (w - S t) - 1 - c).
+  assert (Hd : 0 <= d) by (unfold d; nia).
+  replace (i + 1) with ((2 * c + 1) * 2 ^ Z.of_nat t) by lia.
+  replace (2 ^ Z.of_nat w - 1 - i) with ((2 * d + 1) * 2 ^ Z.of_nat t) by (unfold d; lia).
+  rewrite land_mul_pow2 by lia.
+  change 1 with (Z.b2z true). rewrite land_2. rewrite (land_compl (w - S t) c d) by (unfold d; lia).
+  cbn [andb Z.b2z]. lia.
+Qed.
